@@ -71,6 +71,8 @@ public:
 
   double doStep();
 
+  double optimize(); // redefinition
+
   const FirstOrderDerivable& firstOrderDerivableFunction() const
   {
     if (function_)
